@@ -227,8 +227,11 @@ static std::vector<Fn> catalogue() {
                                             V(fill(A.r1, 30, 1); return cat(flat(upsample(A.r1, 3)), flat(delayseq(A.r1, 4)));), V(fill(A.r1, 9, 1); return cat(flat(upsample(A.r1, 3)), flat(delayseq(A.r1, 4)));)});
     add("C18", "finddelay/gccphat lengths", {V(fill(A.r1, 100, 1); A.r2 = delayseq(A.r1, 5); return cat(flat((double)finddelay(A.r1, A.r2)), flat(gccphat(A.r2, A.r1, 8000).tau));),
                                              V(fill(A.r1, 70, 1); A.r2 = delayseq(A.r1, 5); return cat(flat((double)finddelay(A.r1, A.r2)), flat(gccphat(A.r2, A.r1, 8000).tau));),
-                                             V(fill(A.r1, 120, 1); A.r2 = delayseq(A.r1, -9); return cat(flat((double)finddelay(A.r1, A.r2)), flat(gccphat(A.r2, A.r1, 8000).tau));),
+                                             V(fill(A.r1, 120, 1, 50.0); A.r2 = delayseq(A.r1, -9); return cat(flat((double)finddelay(A.r1, A.r2)), flat(gccphat(A.r2, A.r1, 8000).tau));),
                                              V(fill(A.r1, 66, 1); A.r2 = delayseq(A.r1, -9); return cat(flat((double)finddelay(A.r1, A.r2)), flat(gccphat(A.r2, A.r1, 8000).tau));)});
+    add("C18", "finddelay lengths (loud, then quiet and shorter)", {V(fill(A.r1, 1000, 1, 100.0); A.r2 = delayseq(A.r1, 37); return flat((double)finddelay(A.r1, A.r2));), V(fill(A.r1, 600, 2); A.r2 = delayseq(A.r1, -20); return flat((double)finddelay(A.r1, A.r2));),
+                                                                     V(fill(A.c1, 1000, 3); for (int i = 0; i < 1000; ++i) A.c1[i] = A.c1[i] * 100.0; A.c2 = delayseq(A.c1, 90); return flat((double)finddelay(A.c1, A.c2));),
+                                                                     V(fill(A.c1, 530, 4); A.c2 = delayseq(A.c1, -50); return flat((double)finddelay(A.c1, A.c2));)});
     add("C19", "measurement lengths", {V(fill(A.r1, 4096, 1, 1e-3); for (int i = 0; i < 4096; ++i) A.r1[i] += std::sin(2 * pi * 0.0731 * i) + 0.1 * std::sin(2 * pi * 0.1462 * i); return cat(Out{snr(A.r1), sinad(A.r1), thd(A.r1).value}, flat(thd(A.r1, 3).harmfreq));),
                                        V(fill(A.r1, 2100, 1, 1e-3); for (int i = 0; i < 2100; ++i) A.r1[i] += std::sin(2 * pi * 0.0731 * i) + 0.1 * std::sin(2 * pi * 0.1462 * i); return cat(Out{snr(A.r1), sinad(A.r1), thd(A.r1).value}, flat(thd(A.r1, 3).harmfreq));),
                                        V(fill(A.r1, 3000, 1, 1e-3); for (int i = 0; i < 3000; ++i) A.r1[i] += std::sin(2 * pi * 0.0731 * i) + 0.1 * std::sin(2 * pi * 0.1462 * i); return cat(Out{snr(A.r1), sinad(A.r1), thd(A.r1).value}, flat(thd(A.r1, 3).harmfreq));),
